@@ -31,12 +31,15 @@ PROGS = [
     "lea r0 Cell\nld r1 CELL\nhalt\nCell .fill x11\nCELL .fill x22\ncell .fill x33\ncELL halt\n",
     # every punctuation character a statement's text can hold (inside string literals): shown exactly as written
     "lea r0 brace\nputs\nhalt\nbrace .stringz \"a{b\"\nfmt .stringz \"{r0} = {1;2m}x\"\nclose_ .stringz \"}{ }\"\npunct .stringz \"100% [ok] <x> $y #z @w &v *u (t) ~s ^q |p !o ?n 'm `l\"\nlast2 halt\n",
+    # labels FAR behind the origin (index above 32,767) and sums of index and offset beyond 16-bit signed range
+    "near add r0 r0 #1\nhalt\nhuge .blkw x8000\nfar_ add r0 r0 #2\nfarther halt\n",
+    ".orig x0100\nnear2 halt\nhuge2 .blkw xC000\nfar2 add r1 r1 #1\nhalt\n",
     "lea r0 r10\nputs\nld r1 r25\nhalt\nr10 .stringz \"hi\"\nr25 .fill x1234\nR00 add r1 r1 #1\nr8 halt\nr1a halt\nr77x halt\nr0_ halt\n",
 ]
 LABELS = ["start", "first", "second", "third", "msg", "after", "main", "tbl", "end_", "alpha", "beta", "gamma", "high", "higher",
           "first_", "mid", "last_", "s", "t", "u", "l_one", "l_two", "nothere", "Start",
           "r10", "r25", "R00", "r8", "r1a", "r77x", "r0_", "Cell", "CELL", "cell", "cELL", "celL", "CeLL",
-          "brace", "fmt", "close_", "punct", "last2"]
+          "brace", "fmt", "close_", "punct", "last2", "near", "huge", "far_", "farther", "near2", "huge2", "far2"]
 
 
 def gen(tier, seed):
@@ -58,6 +61,12 @@ def gen(tier, seed):
         cmds.append(("breaklist",))
         cmds.append(("exit",))
         specs.append(("fixed", 0, src, [], cmds))
+        # the same labels with offsets at the ends of the 16-bit signed range and around the program's size
+        big = []
+        for name in LABELS[-12:] + LABELS[:4]:
+            for off in (32767, -32768, 32766, 16384, -16384, 0x7000):
+                big += [("assembly", ("label", name, off)), ("print", ("mem", ("label", name, off))), ("goto", ("label", name, off)), ("breakadd", ("label", name, off))]
+        specs.append(("big-offsets", 0, src, [], big + [("registers",), ("breaklist",), ("exit",)]))
         # the same view later in a session: after stepping, eval, move, reset, repeated
         for pre in ([("stepinto", 2)], [("reset",)], [("stepinto", 1), ("reset",)], [("eval", "add r0 r0 #1")],
                     [("move", ("reg", 1), 5), ("reset",), ("reset",)], [("continue",)], [("continue",), ("reset",)]):
